@@ -654,7 +654,7 @@ class Repo:
             if isinstance(st, (ast.FunctionDef, ast.AsyncFunctionDef)):
                 decs = _decorators(st)
                 kind = "method"
-                if "property" in decs:
+                if "property" in decs or any(d.split(".")[-1] == "cached_property" for d in decs):
                     kind = "property"
                 elif any(d.endswith(".setter") for d in decs):
                     kind = "setter"
